@@ -101,7 +101,7 @@ extern "C" {
 void* __wrap_malloc(size_t s) {
   vf::AllocTrack& t = vf::alloc_track();
   if (void* q = t.take(s, 16)) { t.add(q, s); t.fresh(q, s); return q; }
-  if (t.on && t.arena) { void* p = t.arena_alloc(16, s); if (p) t.add(p, s); t.fresh(p, s); return p; }
+  if (t.on && t.arena) { void* p = t.arena_alloc(16, s); if (p) { t.add(p, s); t.fresh(p, s); return p; } }   // arena full: the ordinary allocator takes over
   void* p = (t.residue >= 0 && t.nshift < 4096) ? t.shifted_alloc(s) : __real_malloc(s);
   if (t.on && p) t.add(p, s);
   t.fresh(p, s);
@@ -119,7 +119,7 @@ void __wrap_free(void* p) {
 void* __wrap_aligned_alloc(size_t a, size_t s) {
   vf::AllocTrack& t = vf::alloc_track();
   if (void* q = t.take(s, a)) { t.add(q, s); t.fresh(q, s); return q; }
-  if (t.on && t.arena) { void* p = t.arena_alloc(a, s); if (p) t.add(p, s); t.fresh(p, s); return p; }
+  if (t.on && t.arena) { void* p = t.arena_alloc(a, s); if (p) { t.add(p, s); t.fresh(p, s); return p; } }
   void* p = __real_aligned_alloc(a, s);
   if (t.on && p) t.add(p, s);
   t.fresh(p, s);
@@ -128,7 +128,7 @@ void* __wrap_aligned_alloc(size_t a, size_t s) {
 void* __wrap_calloc(size_t n, size_t s) {
   vf::AllocTrack& t = vf::alloc_track();
   if (void* q = t.take(n * s, 16)) { memset(q, 0, n * s); t.add(q, n * s); return q; }
-  if (t.on && t.arena) { void* p = t.arena_alloc(16, n * s); if (p) { memset(p, 0, n * s); t.add(p, n * s); } return p; }
+  if (t.on && t.arena) { void* p = t.arena_alloc(16, n * s); if (p) { memset(p, 0, n * s); t.add(p, n * s); return p; } }
   void* p;
   if (t.residue >= 0 && t.nshift < 4096) { p = t.shifted_alloc(n * s); if (p) memset(p, 0, n * s); }
   else p = __real_calloc(n, s);
@@ -139,6 +139,7 @@ void* __wrap_realloc(void* q, size_t s) {
   vf::AllocTrack& t = vf::alloc_track();
   if (t.in_arena(q) || (t.on && t.arena)) {
     void* p = t.arena_alloc(16, s);
+    if (!p) p = __real_malloc(s);   // arena full
     t.fresh(p, s);
     if (p && q) { size_t old = 0; for (int i = t.n - 1; i >= 0; --i) if (t.rec[i].p == q) { old = t.rec[i].size; break; } memcpy(p, q, old < s ? old : s); }
     if (t.on) { t.del(q); if (p) t.add(p, s); }
@@ -161,7 +162,7 @@ void* __wrap_realloc(void* q, size_t s) {
 int __wrap_posix_memalign(void** r, size_t a, size_t s) {
   vf::AllocTrack& t = vf::alloc_track();
   if (void* q = t.take(s, a)) { *r = q; t.add(q, s); t.fresh(q, s); return 0; }
-  if (t.on && t.arena) { void* p = t.arena_alloc(a, s); if (!p) return 12; *r = p; t.add(p, s); t.fresh(p, s); return 0; }
+  if (t.on && t.arena) { void* p = t.arena_alloc(a, s); if (p) { *r = p; t.add(p, s); t.fresh(p, s); return 0; } }
   int rc = __real_posix_memalign(r, a, s);
   if (t.on && rc == 0) t.add(*r, s);
   if (rc == 0) t.fresh(*r, s);
